@@ -316,29 +316,48 @@ func monitor() {
 	}
 }
 
-// loopFrame names the function to blame for a sampled stack: the innermost
-// mp4ff function that is a real (not inlined) frame outside package bits.
-// Inlined leaf helpers (GetNaluType, ChromaArrayType ...) and the bit readers
-// are where the sample happens to land, not where the loop is.
+// loopFrame names the function to blame for a sampled stack. Walking from the
+// innermost frame outwards it takes the first mp4ff function outside package
+// bits that is either a real (not inlined) frame or the outermost function of
+// an inlined chain (its caller is not mp4ff code). Inlined leaf helpers
+// (GetNaluType, ChromaArrayType ...) and the bit readers are where the sample
+// happens to land, not where the loop is.
 func loopFrame(sec string) string {
-	fallback := "unknown"
+	type fr struct {
+		fn      string
+		inlined bool
+		repo    bool
+	}
+	var frames []fr
 	for _, l := range strings.Split(sec, "\n") {
-		if !strings.HasPrefix(l, "github.com/Eyevinn/mp4ff") {
+		if l == "" || l[0] == '\t' || strings.HasPrefix(l, "goroutine ") || strings.HasPrefix(l, "created by") {
 			continue
 		}
+		f := fr{inlined: strings.HasSuffix(l, "(...)"), repo: strings.HasPrefix(l, "github.com/Eyevinn/mp4ff")}
 		fn := l
-		inlined := strings.HasSuffix(fn, "(...)")
 		if i := strings.LastIndex(fn, "("); i > 0 {
 			fn = fn[:i]
 		}
-		fn = strings.TrimPrefix(fn, "github.com/Eyevinn/mp4ff/")
-		if fallback == "unknown" {
-			fallback = fn
-		}
-		if inlined || strings.HasPrefix(fn, "bits.") {
+		f.fn = strings.TrimPrefix(fn, "github.com/Eyevinn/mp4ff/")
+		frames = append(frames, f)
+	}
+	fallback := "unknown"
+	for i, f := range frames {
+		if !f.repo {
 			continue
 		}
-		return fn
+		if fallback == "unknown" {
+			fallback = f.fn
+		}
+		if strings.HasPrefix(f.fn, "bits.") {
+			continue
+		}
+		if !f.inlined {
+			return f.fn
+		}
+		if i+1 >= len(frames) || !frames[i+1].repo {
+			return f.fn
+		}
 	}
 	return fallback
 }
